@@ -782,6 +782,13 @@ def run_chain_call(run, env, thunk):
         if any(result is o for o in env.objs.values()):
             report(run, f"{name}:returns-an-input-object", dict(env=env.desc, op=name, args=args, extra=extra))
         else:
+            # observation only (not a violation): immutable buffers shared with an argument, e.g. conj() of a real state
+            try:
+                if any(np.shares_memory(m.array, a.array) for k in args if k in env.objs
+                       for a in env.objs[k]._mp if a is not None for m in result._mp if m is not None):
+                    run.count(f"shared-buffer(observation):{name}")
+            except Exception:
+                pass
             pre = "R" if isinstance(result, MpDm) else ("S" if isinstance(result, Mps) else "O")
             if pre == "O" and len(env.mpos()) > 5:
                 return
